@@ -15,6 +15,7 @@ BAD_TEXT = ('F0 1 F7', 'F0 0G F7', 'F0 01 F', 'xyz', 'F0 01 F7 F', '0xF0 0xF7',
 
 def alphabet(mido):
     M = mido.Message
+    from mido.frozen import freeze_message as freeze
     return [
         M('sysex'),
         M('sysex', data=(1,)),
@@ -24,6 +25,11 @@ def alphabet(mido):
         M('clock'),
         M('songpos', pos=300),
         M('sysex', data=(0x7F,)),
+        mido.MetaMessage('end_of_track'),
+        mido.MetaMessage('text', text='x'),
+        mido.UnknownMetaMessage(0x60, data=(1,)),
+        freeze(M('sysex', data=(9, 8))),
+        freeze(M('note_on')),
     ]
 
 
@@ -217,20 +223,20 @@ def worker(shard):
 
 
 def run():
-    common.import_mido()
+    mido = common.import_mido()
     thorough = common.tier() == 'thorough'
     rep = Report(PROP, 'exploration',
                  'exhaustive enumeration of message lists x formats x '
                  'whitespace layouts through real files')
-    n = 5 if thorough else 4
+    n = 4 if thorough else 3
     shards = [('misc',), ('tokens',)]
-    shards += [('lists', i, n) for i in range(8)]
+    shards += [('lists', i, n) for i in range(len(alphabet(mido)))]
     shards += [('layout', i) for i in range(5 if thorough else 4)]
     run_shards(worker, shards, rep)
     rep.coverage['exhaustive'] = True
     rep.coverage['rule'] = (
-        f'every message list of length <= {n} over 8 messages (sysex with '
-        f'payload 0/1/3/300 bytes and 0x7F, note_on, clock, songpos) and the '
+        f'every message list of length <= {n} over 13 messages (sysex with '
+        f'payload 0/1/3/300 bytes and 0x7F, note_on, clock, songpos, meta and unknown meta messages, frozen messages) and the '
         f'empty list, written and read back in binary and plain-text format; '
         f'plain-text layouts: every assignment of a separator from '
         f'{[repr(s) for s in SEPS]} to each gap of 4-5 small files, with '
